@@ -19,7 +19,7 @@ InInts == {"0", "1", "-1", "127", "128", "-127", "-128", "-129", "32767", "32768
 OutInts == {"9223372036854775808", "-9223372036854775809", "18446744073709551616"}
 InFloats == {"0.0", "-0.0", "1.5", "0.1", "inf", "-inf", "nan", "1e-50", "3.4e38", "16777217.0"}
 OutFloats == {"1e39"}
-InStrs == {"", "a", "multibyte", "nul", "L300", "mb_edge"}          \* mb_edge: exactly 2^20 bytes of UTF-8 in 2^19 characters
+InStrs == {"", "a", "multibyte", "nul", "L300", "mb_edge", "bom", "bom_only"}          \* mb_edge: exactly 2^20 bytes of UTF-8 in 2^19 characters
 OutStrs == {"toolong", "surrogate", "mb_over"}                      \* mb_over: 2^19+1 two-byte characters: fewer than 2^20 characters, more than 2^20 bytes
 InBytes == {"", "00ff", "L300"}
 OutBytes == {"toolong"}
